@@ -102,6 +102,7 @@ structure InvP (V : Variant) (s : State) : Prop where
   noGlueS : sGlue s.sph = false
   startsDead : sStarting s.sph = true → lph s = .dead ∨ ∃ r, lph s = .post r ∧ afterOk false r = true
   atStart : s.sph = .start → lph s = .unstarted
+  notArmed : s.armed = false
 
 
 theorem invP_init (V : Variant) (jobs : List Job) : InvP V (init jobs) := by
@@ -119,7 +120,7 @@ theorem sNops_class (r : List Lbl) :
 theorem finishS_class (s : State) :
     ((finishS s).sph = .done ∨ (finishS s).sph = .ins) ∧ (finishS s).flag = s.flag ∧ (finishS s).pending = s.pending ∧
     (finishS s).queue = s.queue ∧ (finishS s).mon = s.mon ∧ (finishS s).old = s.old ∧ (finishS s).sub = s.sub ∧
-    (finishS s).oldSubs = s.oldSubs := by
+    (finishS s).oldSubs = s.oldSubs ∧ (finishS s).armed = s.armed := by
   unfold finishS; split <;> simp
 
 theorem lastMonAlive_eq (s : State) : lastMonAlive s = (lph s != .unstarted && lph s != .dead) := by
@@ -152,7 +153,7 @@ theorem invP_sph (V : Variant) (s : State) (ph : SPh) (h : InvP V s)
     (h8 : sFlagged ph = sFlagged s.sph) (h9 : sCover s.sph = true → sCover ph = true)
     (h10 : ph = .start ↔ s.sph = .start) (h11 : sGlue ph = false)
     (h12 : sStarting ph = true → sStarting s.sph = true) : InvP V { s with sph := ph } := by
-  obtain ⟨a, b, c, d, e, f, g, i, j, k, l, m, n, o⟩ := h
+  obtain ⟨a, b, c, d, e, f, g, i, j, k, l, m, n, o, na⟩ := h
   constructor <;> simp only [lph, liter, lcur, h8] at * <;> try assumption
   · intro hne; rcases f hne with hf | hf
     · exact Or.inl hf
@@ -166,9 +167,9 @@ theorem invP_finishS (V : Variant) (s : State) (h : InvP V s)
     (hc : (s.pending ≠ [] ∨ s.queue ≠ []) → s.flag = true ∧ preExit (lph s) = true)
     (hf : s.flag = true → preExit (lph s) = true ∨ ∃ r, lph s = .post r ∧ postOk V.testThread r = true)
     (hu : lph s ≠ .unstarted) : InvP V (finishS s) := by
-  obtain ⟨a, b, c, d, e, f, g, i, j, k, l, m, n, o⟩ := h
-  obtain ⟨h0, h1, h2, h3, h4, h5, h6, h7⟩ := finishS_class s
-  constructor <;> simp only [lph, liter, lcur, h1, h2, h3, h4, h5, h6, h7] at * <;> (try assumption)
+  obtain ⟨a, b, c, d, e, f, g, i, j, k, l, m, n, o, na⟩ := h
+  obtain ⟨h0, h1, h2, h3, h4, h5, h6, h7, h8⟩ := finishS_class s
+  constructor <;> simp only [lph, liter, lcur, h1, h2, h3, h4, h5, h6, h7, h8] at * <;> (try assumption)
   · intro hfl; rcases h0 with h0 | h0 <;> simp [h0, sFlagged] <;> exact hf hfl
   · intro hfl; rcases h0 with h0 | h0 <;> simp [h0, sFlagged] <;> exact (d hfl).2
   · intro hne; exact Or.inl (hc hne)
@@ -244,8 +245,8 @@ theorem stepMon_harmless (V : Variant) (s s' : State) (b : Bool) (m m' : Mon)
 theorem sFlagged_cases (ph : SPh) : sFlagged ph = true → sStarting ph = true ∨ ph = .start := by
   cases ph <;> simp [sFlagged, sStarting]
 
-theorem lastMonAlive_mk (flag pending queue arrAlive reported crashes submitted hit sph cur todo old mon oldSubs sub) :
-    lastMonAlive ⟨flag, pending, queue, arrAlive, reported, crashes, submitted, hit, sph, cur, todo, old, mon, oldSubs, sub⟩
+theorem lastMonAlive_mk (flag pending queue arrAlive reported crashes submitted hit sph cur todo old mon oldSubs sub armed faulted dropped) :
+    lastMonAlive ⟨flag, pending, queue, arrAlive, reported, crashes, submitted, hit, sph, cur, todo, old, mon, oldSubs, sub, armed, faulted, dropped⟩
       = (match mon with | some m => (m.ph != .unstarted && m.ph != .dead) | none => false) := by
   cases mon <;> simp [lastMonAlive, monAlive]
 
@@ -260,7 +261,7 @@ theorem invP_stepS (V : Variant) (hW : WF V) (s s' : State) (h : InvP V s) (hs :
     have hex : s.mons.any (exiting V) = false := by
       split at hs <;> (simp only [Option.some.injEq] at hs; subst hs; simp at hh; simpa using hh.2)
     have hwin := exiting_false_of_any V s hex
-    obtain ⟨a, b, c, d, e, f, g, i, j, k, l, m, n, o⟩ := h
+    obtain ⟨a, b, c, d, e, f, g, i, j, k, l, m, n, o, na⟩ := h
     split at hs <;> (simp only [Option.some.injEq] at hs; subst hs) <;>
       constructor <;> simp only [lph, liter, lcur, hsph, sFlagged, sCover, sGlue, sStarting] at * <;> (try assumption) <;> grind
   case call =>
@@ -286,15 +287,15 @@ theorem invP_stepS (V : Variant) (hW : WF V) (s s' : State) (h : InvP V s) (hs :
   case startSub => have := h.noGlueS; simp [hsph, sGlue] at this
   case ret =>
     simp only [stepS, hsph, Option.some.injEq] at hs; subst hs
-    obtain ⟨a, b, c, d, e, f, g, i, j, k, l, m, n, o⟩ := h
-    apply invP_finishS V s ⟨a, b, c, d, e, f, g, i, j, k, l, m, n, o⟩ <;>
+    obtain ⟨a, b, c, d, e, f, g, i, j, k, l, m, n, o, na⟩ := h
+    apply invP_finishS V s ⟨a, b, c, d, e, f, g, i, j, k, l, m, n, o, na⟩ <;>
       simp only [lph, liter, lcur, hsph, sFlagged, sCover, sGlue, sStarting] at * <;> grind
   case test =>
-    obtain ⟨flag, pending, queue, arrAlive, reported, crashes, submitted, hit, sph, cur, todo, old, mon, oldSubs, sub⟩ := s
+    obtain ⟨flag, pending, queue, arrAlive, reported, crashes, submitted, hit, sph, cur, todo, old, mon, oldSubs, sub, armed, faulted, dropped⟩ := s
     simp only at hsph; subst hsph
     obtain ⟨c1, c2, c3, c4, c5⟩ := (sNops_class V.sSetPre).2.1
-    have hfin := invP_finishS V ⟨flag, pending, queue, arrAlive, reported, crashes, submitted, hit, .test, cur, todo, old, mon, oldSubs, sub⟩ h
-    obtain ⟨a, b, c, d, e, f, g, i, j, k, l, m, n, o⟩ := h
+    have hfin := invP_finishS V ⟨flag, pending, queue, arrAlive, reported, crashes, submitted, hit, .test, cur, todo, old, mon, oldSubs, sub, armed, faulted, dropped⟩ h
+    obtain ⟨a, b, c, d, e, f, g, i, j, k, l, m, n, o, na⟩ := h
     simp only [stepS, hW.noGlue, Bool.false_eq_true, ↓reduceIte, lastMonAlive_mk] at hs
     cases mon with
     | none =>
@@ -318,10 +319,10 @@ theorem invP_stepS (V : Variant) (hW : WF V) (s s' : State) (h : InvP V s) (hs :
         | (apply hfin <;> grind [preExit])
         | (constructor <;> simp only [lph, liter, lcur, c1, c2, c3, c4, sFlagged, sCover, sGlue, sStarting] at * <;> (try assumption) <;> grind [preExit])
   case set =>
-    obtain ⟨flag, pending, queue, arrAlive, reported, crashes, submitted, hit, sph, cur, todo, old, mon, oldSubs, sub⟩ := s
+    obtain ⟨flag, pending, queue, arrAlive, reported, crashes, submitted, hit, sph, cur, todo, old, mon, oldSubs, sub, armed, faulted, dropped⟩ := s
     simp only at hsph; subst hsph
     obtain ⟨c1, c2, c3, c4, c5⟩ := (sNops_class V.sNewPre).2.2
-    obtain ⟨a, b, c, d, e, f, g, i, j, k, l, m, n, o⟩ := h
+    obtain ⟨a, b, c, d, e, f, g, i, j, k, l, m, n, o, na⟩ := h
     simp only [stepS, hW.noGlue, Bool.false_eq_true, ↓reduceIte, Option.some.injEq] at hs
     subst hs
     cases mon with
@@ -332,9 +333,9 @@ theorem invP_stepS (V : Variant) (hW : WF V) (s s' : State) (h : InvP V s) (hs :
       have hph := mph_cases mph
       constructor <;> simp only [lph, liter, lcur, c1, c2, c3, c4, sFlagged, sCover, sGlue, sStarting] at * <;> (try assumption) <;> grind [preExit]
   case new =>
-    obtain ⟨flag, pending, queue, arrAlive, reported, crashes, submitted, hit, sph, cur, todo, old, mon, oldSubs, sub⟩ := s
+    obtain ⟨flag, pending, queue, arrAlive, reported, crashes, submitted, hit, sph, cur, todo, old, mon, oldSubs, sub, armed, faulted, dropped⟩ := s
     simp only at hsph; subst hsph
-    obtain ⟨a, b, c, d, e, f, g, i, j, k, l, m, n, o⟩ := h
+    obtain ⟨a, b, c, d, e, f, g, i, j, k, l, m, n, o, na⟩ := h
     simp only [stepS, Option.some.injEq] at hs
     subst hs
     cases mon with
@@ -347,9 +348,9 @@ theorem invP_stepS (V : Variant) (hW : WF V) (s s' : State) (h : InvP V s) (hs :
       constructor <;> simp only [lph, liter, lcur, sFlagged, sCover, sGlue, sStarting, Option.toList] at * <;> (try assumption) <;>
         grind [preExit, iterPh, curPh]
   case start =>
-    obtain ⟨flag, pending, queue, arrAlive, reported, crashes, submitted, hit, sph, cur, todo, old, mon, oldSubs, sub⟩ := s
+    obtain ⟨flag, pending, queue, arrAlive, reported, crashes, submitted, hit, sph, cur, todo, old, mon, oldSubs, sub, armed, faulted, dropped⟩ := s
     simp only at hsph; subst hsph
-    obtain ⟨a, b, c, d, e, f, g, i, j, k, l, m, n, o⟩ := h
+    obtain ⟨a, b, c, d, e, f, g, i, j, k, l, m, n, o, na⟩ := h
     simp only [stepS, hW.noGlue, Bool.false_eq_true, ↓reduceIte, Option.some.injEq] at hs
     subst hs
     obtain ⟨q1, q2, q3, q4, q5, q6, q7⟩ := mNops_pre_class V.mPre
@@ -360,11 +361,11 @@ theorem invP_stepS (V : Variant) (hW : WF V) (s s' : State) (h : InvP V s) (hs :
       simp only [lph] at o
       have hm : mph = .unstarted := o trivial
       subst hm
-      obtain ⟨h0, h1, h2, h3, h4, h5, h6, h7⟩ := finishS_class
+      obtain ⟨h0, h1, h2, h3, h4, h5, h6, h7, h8⟩ := finishS_class
         ⟨flag, pending, queue, arrAlive, reported, crashes, submitted, hit, .start, cur, todo, old,
           Option.map (fun m => if m.ph = MPh.unstarted then { m with ph := mNops V.mPre .pre .loop } else m)
-            (some ⟨.unstarted, iter, mcur, idx⟩), oldSubs, sub⟩
-      constructor <;> simp only [lph, liter, lcur, h1, h2, h3, h4, h5, h6, h7, Option.map, ↓reduceIte] at * <;> (try assumption)
+            (some ⟨.unstarted, iter, mcur, idx⟩), oldSubs, sub, armed, faulted, dropped⟩
+      constructor <;> simp only [lph, liter, lcur, h1, h2, h3, h4, h5, h6, h7, h8, Option.map, ↓reduceIte] at * <;> (try assumption)
       all_goals (rcases h0 with h0 | h0 <;> simp only [h0, sFlagged, sCover, sGlue, sStarting] at * <;> grind [preExit])
 
 end RedunModel.Monitor
